@@ -38,13 +38,27 @@ func VH_C17_RoundTrip() {
 	vReach("rt/done")
 }
 
-var vhStash []byte
+var vhStashes [][]byte
+var vhDecIdx int
 
 // Stub raw coder (symbolic run only, via Config.Replace): a 5+e byte token;
 // the payload travels out of band. It obeys decodeRaw(encodeRaw(x)) == x and
 // has nondeterministic length, which is all the XZ framing may rely on.
 func vhStubEncodeRaw(dst []byte, src []byte) []byte {
-	vhStash = append([]byte(nil), src...)
+	vhStashes = append(vhStashes, append([]byte(nil), src...))
+	if len(src) >= 1000 {
+		// large chunk: the stub's output length is len(src)+d for a symbolic d around the
+		// compressed-versus-raw decision point (and around the 16-bit packed-size field limit)
+		d := vInt("rawdelta")
+		vAssume(vAnd(d >= -8, d <= 6))
+		total := len(src) + vConc(d)
+		dst = append(dst, 0x00, 'W', byte(total>>16), byte(total>>8), byte(total))
+		filler := make([]byte, total-5)
+		for i := range filler {
+			filler[i] = 0x77
+		}
+		return append(dst, filler...)
+	}
 	e := vU8("rawpad")
 	vAssume(e <= 2)
 	dst = append(dst, 0x00, 'V', 'H', e, 0x00)
@@ -55,6 +69,18 @@ func vhStubEncodeRaw(dst []byte, src []byte) []byte {
 }
 
 func vhStubDecodeRaw(dst []byte, src []byte, size uint64, errUnsupported error) ([]byte, []byte, error) {
+	if vhDecIdx >= len(vhStashes) {
+		return dst, src, errUnsupported
+	}
+	vhStash := vhStashes[vhDecIdx]
+	vhDecIdx++
+	if len(src) >= 5 && src[0] == 0x00 && src[1] == 'W' {
+		total := int(src[2])<<16 | int(src[3])<<8 | int(src[4])
+		if len(src) < total || uint64(len(vhStash)) != size {
+			return dst, src, errUnsupported
+		}
+		return append(dst, vhStash...), src[total:], nil
+	}
 	if len(src) < 5 || src[0] != 0x00 || src[1] != 'V' || src[2] != 'H' {
 		return dst, src, errUnsupported
 	}
@@ -63,6 +89,34 @@ func vhStubDecodeRaw(dst []byte, src []byte, size uint64, errUnsupported error) 
 		return dst, src, errUnsupported
 	}
 	return append(dst, vhStash...), src[5+e:], nil
+}
+
+// VH_C17_XzFrameBig: one full 65536-byte chunk (plus TAIL further bytes) with the stub raw
+// coder's output length symbolic around 65536: the compressed-versus-raw choice, the 16-bit
+// size fields and the multi-chunk bookkeeping round-trip.
+func VH_C17_XzFrameBig() {
+	n := 0x10000 + vParam("TAIL")
+	m := make([]byte, n)
+	for i := range m {
+		m[i] = byte(i*7 + 3)
+	}
+	enc, err := FileFormatXz.Encode(nil, m)
+	vCheck(err == nil, "xzbig/encode-error")
+	vCheck(len(enc)%4 == 0, "xzbig/file-size-multiple-of-4")
+	dec, rest, err := FileFormatXz.Decode(nil, enc)
+	vCheck(err == nil, "xzbig/decode-error")
+	vCheck(len(rest) == 0, "xzbig/nothing-left-over")
+	vCheck(len(dec) == n, "xzbig/decoded-length")
+	if len(dec) == n {
+		ok := true
+		for i := range m {
+			if dec[i] != m[i] {
+				ok = false
+			}
+		}
+		vCheck(ok, "xzbig/bytes")
+	}
+	vReach("xzbig/done")
 }
 
 // VH_C17_XzFrame: XZ container logic (chunk kind choice, sizes, padding,
